@@ -10,8 +10,15 @@
 
    Everything after the builder - BitVector::from, enable_select, enable_select_zero, every query, the
    serialized form - is still evaluated by the model itself on these arrays (Check/C02.v).
-   Agreement of the one-pass arrays with the arrays of the replaying model is checked on EVERY case that is
-   small enough to replay ([fast_agrees] in Check/C02.v: thousands of cases per run, all construction routes). *)
+
+   PROVED (Proofs/SparseFastProof.v, stated in Props/C02_fast.v and Props/C15_fast.v): for every mode, width
+   1..63, universe below 2^64 and every value list the builder accepts, [fast_builder] is exactly the builder the
+   model reaches by replaying try_set (all fields but b_next, which try_from does not read), and
+   [model_build_checked] returns the result of the pure model build on every construction route whenever its
+   flag is true. In addition the one-pass arrays are still compared at run time with the replayed arrays on EVERY
+   case that is small enough to replay ([fast_agrees]: thousands of cases per run, all construction routes).
+
+   This file imports only Model/ (no primitive integers), so that it can be part of a theorem cone. *)
 From Coq Require Import NArith List Bool.
 Require Import SDS.Model.Mach SDS.Model.Bits SDS.Model.Raw SDS.Model.IntVec SDS.Model.BitVec SDS.Model.Sparse.
 Import ListNotations.
@@ -67,11 +74,26 @@ Definition fast_valid (inc n : N) (vals : list N) : bool :=
 Definition fast_builder (m : mode) (w n inc : N) (vals : list N) : res builder :=
   let ones := lenN vals in
   let* (width, high_len) := get_params m w n ones in
-  if 2 ^ 27 <=? high_len then Panic PFuel
-  else
-    let low := mkiv ones width (mkraw (ones * width) (fast_low_words width vals)) in
-    let high := mkraw high_len (fast_high_words width vals high_len) in
-    Ok (mkb n low high ones 0 inc).
+  let low := mkiv ones width (mkraw (ones * width) (fast_low_words width vals)) in
+  let high := mkraw high_len (fast_high_words width vals high_len) in
+  Ok (mkb n low high ones 0 inc).
+
+(* a builder with b_next reset: what [fast_builder] yields for the builder the model reaches *)
+Definition forget_next (b : builder) : builder :=
+  mkb (b_universe b) (b_low b) (b_high b) (b_len b) 0 (b_inc b).
+
+(* protection of the checker, not of the model: a high part of 2^27 bits or more (2^21 words as a Coq list) is
+   refused by [model_build_checked] with its flag false, i.e. the case is reported, never accepted *)
+Definition fast_too_large (m : mode) (w n : N) (vals : list N) : bool :=
+  match get_params m w n (lenN vals) with
+  | Ok (_, high_len) => 2 ^ 27 <=? high_len
+  | _ => false
+  end.
+
+(* where the theorem about [fast_builder] holds: oracle width 1..63, universe below 2^64, fewer than 2^63 values
+   (then ones + buckets < 2^64) *)
+Definition fast_domain (w u : N) (vals : list N) : bool :=
+  (1 <=? w) && (w <=? 63) && (u <? 2 ^ 64) && (lenN vals <? 2 ^ 63).
 
 (* what the replaying model computes for the same input: the builder after the last try_set *)
 Definition replay_builder (m : mode) (w n inc : N) (vals : list N) : res (builder + N) :=
@@ -85,3 +107,58 @@ Definition replay_builder (m : mode) (w n inc : N) (vals : list N) : res (builde
 Definition builder_same (a b : builder) : bool :=
   (b_universe a =? b_universe b) && (b_len a =? b_len b) && (b_inc a =? b_inc b)
   && iv_eqb (b_low a) (b_low b) && raw_eqb (b_high a) (b_high b).
+
+(* ---- the model's vector for a case, through the one-pass builder where replaying would take minutes *)
+
+(* the last element in one pass ([ValSeq.last_opt] reverses the list with [rev], which is quadratic) *)
+Fixpoint fast_last (l : list N) : option N :=
+  match l with
+  | [] => None
+  | [x] => Some x
+  | _ :: t => fast_last t
+  end.
+
+(* route: 0 = SparseBuilder::new + try_set + try_from, 1 = SparseBuilder::multiset + try_set + try_from,
+   2 = copy_bit_vec from a plain bitvector of length n with the given positions set, 3 = try_from_iter *)
+Definition model_build (sp : selpath) (m : mode) (route w n : N) (vals : list N) : res (sparse + N) :=
+  match route with
+  | 0 => sv_build_set sp m w n vals
+  | 1 => sv_build_multiset sp m w n vals
+  | 2 => let* s := sv_copy sp m w n vals in Ok (inl s)
+  | _ => sv_try_from_iter sp m w vals
+  end.
+
+(* from this many values on, the builder state is evaluated in one pass only (replaying try_set value by value
+   over list-based arrays would take minutes); below it, the model replays every call and the one-pass arrays are
+   compared with the arrays the replay produced *)
+Definition FAST_FROM : N := 20000.
+
+(* (increment, universe) when the route accepts the input, i.e. when the one-pass evaluation is defined *)
+Definition fast_params (route n : N) (vals : list N) : option (N * N) :=
+  match route with
+  | 0 | 2 => if fast_valid 1 n vals then Some (1, n) else None
+  | 1 => if fast_valid 0 n vals then Some (0, n) else None
+  | _ => let u := match fast_last vals with None => 0 | Some last => last + 1 end in
+         if fast_valid 0 u vals && (u <? 2 ^ 64) then Some (0, u) else None
+  end.
+
+Definition fast_agrees (sv : sparse) (fb : builder) : bool :=
+  (sv_len sv =? b_universe fb) && raw_eqb (bv_data (sv_high sv)) (b_high fb) && iv_eqb (sv_low sv) (b_low fb).
+
+(* the model's vector, and a flag: false when the one-pass arrays differ from the replayed ones, or when the
+   one-pass route refuses the case as too large (true when nothing was compared).
+   Proofs/SparseFastProof.v [fast_checked_exact]: flag = true -> the first component = model_build. *)
+Definition model_build_checked (sp : selpath) (m : mode) (route w n : N) (vals : list N) : res (sparse + N) * bool :=
+  match fast_params route n vals with
+  | Some (inc, u) =>
+      if (FAST_FROM <=? lenN vals) && fast_domain w u vals then
+        if fast_too_large m w u vals then (Panic PFuel, false)
+        else ((let* b := fast_builder m w u inc vals in sv_try_from sp m b), true)
+      else
+        let r := model_build sp m route w n vals in
+        (r, match r, fast_builder m w u inc vals with
+            | Ok (inl sv), Ok fb => fast_agrees sv fb
+            | _, _ => true
+            end)
+  | None => (model_build sp m route w n vals, true)
+  end.
